@@ -112,8 +112,45 @@ def _evaluate(e, env, bits=64):
                 return int(a)
             return a & CAST_MASK[to]
         raise Uneval("cast " + to)
+    if k == "constlist":
+        return ("$list", e[1])
+    if k == "call" and e[1].rsplit("::", 1)[-1] == "contains" and len(e[2]) == 2:
+        rng = e[2][0]
+        renv = env
+        if rng[0] == "param" and rng[2] in (env.get("@subst") or {}):
+            rng, renv = env["@subst"][rng[2]]
+        x = evaluate(e[2][1], env, bits)
+        env_saved = env
+        env = renv
+        if rng[0] == "call" and rng[1].endswith("RangeInclusive::<Idx>::new"):
+            return int(evaluate(rng[2][0], env, bits) <= x <= evaluate(rng[2][1], env, bits))
+        if rng[0] == "agg" and rng[1].endswith("Range") and len(rng[2]) == 2:
+            return int(evaluate(rng[2][0], env, bits) <= x < evaluate(rng[2][1], env, bits))
+        if rng[0] == "agg" and "RangeInclusive" in rng[1] and len(rng[2]) >= 2:
+            return int(evaluate(rng[2][0], env, bits) <= x <= evaluate(rng[2][1], env, bits))
+        if rng[0] == "agg" and rng[1] == "array":
+            return int(x in [evaluate(a, env, bits) for a in rng[2]])
+        r = evaluate(rng, env, bits)
+        if isinstance(r, tuple) and r and r[0] == "$list":
+            return int(x in r[1])
+        raise Uneval("contains")
     if k == "agg" and e[1] == "tuple":
         return tuple(evaluate(a, env, bits) for a in e[2])
+    if k == "agg" and "::" in e[1]:
+        return ("$variant", e[1].rsplit("::", 1)[-1])
+    if k == "discr":
+        v = evaluate(e[1], env, bits)
+        if isinstance(v, tuple) and v and v[0] == "$variant":
+            idx = {"Ok": 0, "Err": 1, "None": 0, "Some": 1, "Continue": 0, "Break": 1}.get(v[1])
+            if idx is not None:
+                return idx
+            prog = env.get("@prog")
+            if prog is not None:
+                hits = [(a, i) for a in prog.adts.values() if a["kind"] == "enum" for i, vv in enumerate(a["variants"]) if vv["name"] == v[1]]
+                if len(hits) == 1:
+                    a, i = hits[0]
+                    return a["discrs"][i] if a.get("discrs") and i < len(a["discrs"]) else i
+        raise Uneval("discr")
     if k == "call":
         name = e[1].rsplit("::", 1)[-1]
         fnk = "@fn:" + name
@@ -132,11 +169,17 @@ def _evaluate(e, env, bits=64):
             cenv.pop("@cache", None)
             for i, a in enumerate(e[2]):
                 nm = cf.local_name(i + 1)
+                if nm and a[0] == "constdict":
+                    for fk, fv in a[1]:
+                        cenv["%s.%s" % (nm, fk)] = fv
+                    continue
                 if nm and nm != "self":
                     try:
                         cenv[nm] = evaluate(a, env, bits)
                     except Uneval:
-                        pass
+                        sub = dict(cenv.get("@subst") or {})
+                        sub[nm] = (a, env)
+                        cenv["@subst"] = sub
             return evaluate(cache[e[1]], cenv, bits)
         args = [evaluate(a, env, bits) for a in e[2]]
         if name == "min":
@@ -201,6 +244,10 @@ def seq_len(e, env, bits=64):
         return seq_len(e[2] if evaluate(e[1], env, bits) else e[3], env, bits)
     if e[0] == "variant":
         return seq_len(e[1], env, bits)
+    if e[0] == "agg" and e[1] == "array":
+        return len(e[2])
+    if e[0] == "call" and not e[2] and e[1].rsplit("::", 1)[-1] in ("new", "default"):
+        return 0
     if e[0] == "call":
         nm = e[1].rsplit("::", 1)[-1]
         if nm in ("index", "index_mut") and len(e[2]) == 2 and e[2][1][0] == "agg":
